@@ -135,6 +135,22 @@ impl Stream for ScriptedStream {
             PollEnd::Ready => Poll::Ready(None),
         }
     }
+    /// scripts of even length advertise the exact number of items left (as `iter`, channels with
+    /// a known length or `take(n)` do); the others keep the default hint
+    fn size_hint(&self) -> (usize, Option<usize>) {
+        if self.0.script.len() % 2 == 1 {
+            return (0, None);
+        }
+        let mut n = 0;
+        for ps in self.0.script.iter().skip(self.0.pos) {
+            match ps.end {
+                PollEnd::Alt => n += 1,
+                PollEnd::Ready => break,
+                PollEnd::Pending => {}
+            }
+        }
+        (n, Some(n))
+    }
 }
 
 pub struct ScriptedSink(pub Scripted);
